@@ -357,7 +357,8 @@ RED = dict(int_lits=(-3,), real_lits=('0.5',), log_lits=(True,))
 
 def space(ctx):
     """List of work items, smallest first, and the bound description.
-    quick:    <= 1 operator (2- and 3-child nodes), 2 operators with binary nodes, full leaf alphabet
+    quick:    <= 1 operator (2- and 3-child nodes), 2 operators with binary nodes, full leaf alphabet;
+              3 operators of which >= 1 is a unary minus (subtraction forms), reduced alphabet
     thorough: <= 2 operators (binary nodes on the full alphabet, 2-3 child nodes on the reduced alphabet);
               3 operators (int/real, plain binary nodes + unary minus) on the reduced alphabet;
               closure under SubstituteExpressionsMapper and simplify"""
@@ -374,7 +375,18 @@ def space(ctx):
         binary = G.Enumerator(dict(_CFG, arities=(2,)))
         for T in 'irl':
             items += [{'tree': t} for t in binary.exactly(T, 2)]
-        bound.update(max_operator_nodes=2, two_operator_trees='binary nodes only (3-child sums/products with <= 1 operator)')
+        # subtraction / sign forms need 3 nodes (a - (b + c) = Sum(a, Product(-1, Sum(b, c)))): every 3-operator tree
+        # with at least one unary minus, plain binary nodes, reduced alphabet
+        red3 = G.Enumerator(dict(_CFG, forms=('plain',), arities=(2,), **RED))
+        nneg = 0
+        for T in 'ir':
+            for t in red3.exactly(T, 3):
+                if G.count_heads(t, ('neg',)):
+                    items.append({'tree': t})
+                    nneg += 1
+        bound.update(max_operator_nodes=2, two_operator_trees='binary nodes only (3-child sums/products with <= 1 operator)',
+                     three_operator_trees_with_unary_minus=nneg,
+                     three_operator_alphabet='integer and real trees, reduced alphabet, plain binary nodes, >= 1 unary minus')
         plain = G.Enumerator(dict(_CFG, forms=('plain',), arities=(2,)))
         sub_types, sub_hosts, sim_sizes = 'ir', plain, (1,)
     else:
